@@ -197,7 +197,12 @@ def build_oracle(flavour="plain", repo=None):
         if rc != 0:
             raise BuildError("link failed:\n" + err[-3000:])
         os.replace(tmpb, binp)
-    _prune(bindir, keep={binp}, max_files=6)
+    else:
+        try:
+            os.utime(binp)          # in use now: keeps it out of a concurrent run's pruning
+        except OSError:
+            pass
+    _prune(bindir, keep={binp}, max_files=6, min_age_s=4 * 3600)
     return binp
 
 
